@@ -28,9 +28,8 @@ func runConvLiveNSX(env *run.Env, g *genCase) *convOutcome {
 	lr := lc.run(env)
 	defer lr.cleanup()
 	o := &convOutcome{}
-	for _, e := range lr.changeEvents() {
-		o.Commands = append(o.Commands, e.Raw)
-	}
+	// Same spelling as the lines of a printed script.
+	o.Commands = append(o.Commands, be.Writes...)
 	o.Nontrivial = len(o.Commands) > 0
 	if isCrash(lr.Res) {
 		o.Crashed = true
@@ -56,7 +55,7 @@ func runConvLiveNSX(env *run.Env, g *genCase) *convOutcome {
 			}
 		}
 		o.Exec = &clause{rule, "live request refused: " + be.Rejected[0]}
-		o.ExecStep = len(o.Commands)
+		o.ExecStep = be.RejectedAt[0]
 		return o
 	}
 	if lr.Res.Exit != 0 {
@@ -87,8 +86,9 @@ func runConvLivePANOS(env *run.Env, g *genCase) *convOutcome {
 	lr := lc.run(env)
 	defer lr.cleanup()
 	o := &convOutcome{}
-	for _, e := range lr.changeEvents() {
-		o.Commands = append(o.Commands, e.Raw)
+	for _, w := range be.Writes {
+		action, xpath, _ := strings.Cut(w, " ")
+		o.Commands = append(o.Commands, "action="+action+"&type=config&xpath="+xpath)
 	}
 	o.Nontrivial = len(o.Commands) > 0
 	if isCrash(lr.Res) {
@@ -107,7 +107,7 @@ func runConvLivePANOS(env *run.Env, g *genCase) *convOutcome {
 			}
 		}
 		o.Exec = &clause{rule, "live request refused: " + be.Rejected[0]}
-		o.ExecStep = len(o.Commands)
+		o.ExecStep = be.RejectedAt[0]
 		return o
 	}
 	if lr.Res.Exit != 0 {
